@@ -80,6 +80,9 @@ func forget(i int) Event           { return Event{Kind: EvForgetLeader, Node: ui
 func pauseApply(i, on int) Event   { return Event{Kind: EvPauseApply, Node: uint8(i), Arg: uint16(on)} }
 func pauseAppend(i, on int) Event  { return Event{Kind: EvPauseAppend, Node: uint8(i), Arg: uint16(on)} }
 func confMixed(i, k, n int) Event  { return Event{Kind: EvProposeConf, Node: uint8(i), Peer: uint8(n), Arg: uint16(k)} }
+func confMixedLast(i, k, n int) Event {
+	return Event{Kind: EvProposeConf, Node: uint8(i), Peer: uint8(n), Arg: uint16(k) | 0x100}
+}
 
 func ticks(i, n int) []Event {
 	var out []Event
@@ -416,6 +419,12 @@ func scriptMixedBatch() []Event {
 	return seq(camp(1), prop(1), confMixed(1, mAddLearner4, 2), prop(1), confMixed(2, mAddVoter4, 1), prop(2), confMixed(1, mRemove3, 2), prop(1))
 }
 
+// scriptBatchThenConf: a batch whose configuration change comes after normal
+// entries, applied one entry per Ready, followed by another change.
+func scriptBatchThenConf() []Event {
+	return seq(camp(1), prop(1), confMixedLast(1, mAddLearner4, 2), conf(1, mAddVoter4), prop(1), confMixedLast(2, mRemove3, 1), conf(1, mJointExpl), prop(1))
+}
+
 // scriptJointCheckQuorum: the leader is in a joint configuration and loses contact
 // with a majority of the outgoing voters while the incoming voters keep answering.
 func scriptJointCheckQuorum() []Event {
@@ -522,7 +531,7 @@ func poolElection(tier string) (p pool) {
 	for _, f := range []feat{syncF, asyncF, pvF} {
 		p.bfs = append(p.bfs, bfsDueling(f, 3, 2, 3), bfsDueling(f, 3, 2, 3, int(BDup), 1), bfsDueling(f, 3, 2, 3, int(BCrash), 1))
 	}
-	p.bfs = append(p.bfs, bfsCandidateCrash(asyncF), bfsCandidateCrash(syncF)) // weight raised in Jobs()
+	p.bfs = append(p.bfs, bfsCandidateCrash(asyncF), bfsCandidateCrash(syncF), bfsPrevoteCrash()) // weight raised in Jobs()
 	return
 }
 
@@ -534,6 +543,20 @@ func bfsCandidateCrash(f feat) *Scenario {
 	s.CampaignNodes = []uint8{1}
 	s.CrashNodes = []uint8{1}
 	s.ProposeNodes = []uint8{1}
+	s.CrashFlags = []int{0}
+	s.MaxTerm = 2
+	return s
+}
+
+// bfsPrevoteCrash: PreVote cluster; node 3 campaigns, node 1 may crash between
+// persisting entries and persisting its hard state (README order) and is then
+// asked for pre-votes at term 0 (reaches known finding KF-2).
+func bfsPrevoteCrash() *Scenario {
+	s := newSc("bfs/prevote-crash/"+pvF.tag(), 3, ids(3), pvF.cfg())
+	s.budget(int(BCampaign), 2, int(BCrash), 1, int(BDup), 1)
+	s.CampaignNodes = []uint8{3}
+	s.CrashNodes = []uint8{1}
+	s.CrashStages = []int{StageEntries}
 	s.CrashFlags = []int{0}
 	s.MaxTerm = 2
 	return s
@@ -591,6 +614,11 @@ func poolConf(tier string) (p pool) {
 	}
 	for _, f := range []feat{syncF, asyncF} {
 		p.dd = append(p.dd, confSc("mixed-batch", f, scriptMixedBatch(), k, defaultFaults...))
+		bt := confSc("batch-then-conf", f, scriptBatchThenConf(), k, defaultFaults...)
+		c := f.cfg()
+		c.MaxCommittedSize = 1
+		bt.Cfg = []NodeCfg{c}
+		p.dd = append(p.dd, bt)
 	}
 	for _, f := range []feat{syncF, asyncF} {
 		cb := append([]int{int(BProposeConf), 1}, defaultFaults...)
@@ -872,7 +900,7 @@ func Jobs(prop, tier string) []*Job {
 	}
 	for i, j := range jobs {
 		j.Index = i
-		if strings.Contains(j.Name, "candidate-crash") || strings.Contains(j.Name, "pagination") {
+		if strings.Contains(j.Name, "candidate-crash") || strings.Contains(j.Name, "pagination") || strings.Contains(j.Name, "prevote-crash") {
 			j.Weight = 5
 		}
 	}
